@@ -46,6 +46,21 @@ class QErr(Exception):
     pass
 
 
+class FalsyErr(Exception):
+    """an exception instance that is falsy (e.g. an error collection with __len__ == 0): still the given reason"""
+
+    def __bool__(self):
+        return False
+
+
+# the first few elements are falsy / None (legal elements); all are pairwise distinct under ==
+_SPECIAL = [None, 0, "", ()]
+
+
+def _element(i):
+    return _SPECIAL[i] if i < len(_SPECIAL) else i
+
+
 def budget(tier):
     return {"examples": 1500, "shards": 1} if tier == "quick" else {"examples": 20000, "shards": 16}
 
@@ -127,7 +142,7 @@ def run_case(case) -> Outcome:
         for op in ops:
             collect()
             if op in ("enq1", "enq3"):
-                vals = [next(counter) for _ in range(1 if op == "enq1" else 3)]
+                vals = [_element(next(counter)) for _ in range(1 if op == "enq1" else 3)]
                 if pending is not None and not pending.done():
                     log["classes"].add("enqueue-while-receive-pending")
                 try:
@@ -145,7 +160,8 @@ def run_case(case) -> Outcome:
                     q.finish()
                     new = ("stop",)
                 elif op == "finish_err":
-                    e = QErr(next(counter))
+                    n = next(counter)
+                    e = FalsyErr(n) if n % 2 else QErr(n)
                     q.finish(e)
                     new = ("err", e)
                 else:
@@ -215,18 +231,18 @@ def run_case(case) -> Outcome:
                 out.violate("2", "C17.2/reason-not-sticky", f"{kind} {val!r} expected {reason!r}")
         if received != enqueued:
             lost = [x for x in enqueued if x not in received]
-            dup = sorted({x for x in received if received.count(x) > 1})
+            dup = sorted({x for x in received if received.count(x) > 1}, key=repr)
             if lost:
                 sig = "C17.1/element-lost"
             elif dup:
                 sig = "C17.1/element-duplicated"
-            elif sorted(received) == sorted(enqueued):
+            elif sorted(received, key=repr) == sorted(enqueued, key=repr):
                 sig = "C17.1/elements-reordered"
             else:
                 sig = "C17.1/element-invented"
             out.violate("1", sig, f"enqueued={enqueued} received={received}")
         try:
-            q.enqueue(-1)
+            q.enqueue("after-finish")
             out.violate("3", "C17.3/enqueue-after-finish-accepted", "epilogue")
         except RuntimeError:
             pass
